@@ -71,8 +71,9 @@ class Escape:
 
 
 class Effects:
-    def __init__(self, repo: Repo, int_gate=None, max_depth: int = 5, extra_external=(), no_raise_calls=()):
+    def __init__(self, repo: Repo, int_gate=None, max_depth: int = 5, extra_external=(), no_raise_calls=(), receiver_hints=None):
         self.repo = repo
+        self.receiver_hints = dict(receiver_hints or {})  # (class name, attr) -> ClassInfo | FunctionInfo
         self.int_gate = int_gate
         self.max_depth = max_depth
         self.external = list(EXTERNAL) + list(extra_external)
@@ -230,11 +231,17 @@ class Effects:
         target = self._resolve(n, fn, self_cls)
         if target is not None:
             self.stats["calls_resolved"] += 1
+            if target.is_async and not isinstance(getattr(n, "parent", None), ast.Await):
+                return  # creates a coroutine object; its exceptions surface where it is awaited / in its task
             if depth < self.max_depth:
                 sc = self_cls if self._is_self_call(n, fn) else (enclosing_class(self.repo, target) if target.cls is not None or target.outer is not None else None)
                 if target.name == "__init__" and target.cls is not None:
                     sc = target.cls
+                passed = {k.arg for k in n.keywords if k.arg} | set(self._positional_params(target, len(n.args)))
+                star = any(k.arg is None for k in n.keywords) or any(isinstance(a, ast.Starred) for a in n.args)
                 for e in self.escapes(target, sc, depth + 1, chain + (fn.where,)):
+                    if not star and getattr(e.site, "fn", None) is target and self._needs_absent_param(e.site, target, passed):
+                        continue  # raise guarded by `param is not None` for a defaulted parameter this call does not pass
                     yield e.cls, e.why, (e.site, e.chain, e.flags)
             return
         for pat, cls, why in self.external:
@@ -246,6 +253,27 @@ class Effects:
                 yield cls, why, None
                 return
         self.stats["calls_unresolved"] += 1
+
+    def _positional_params(self, target: FunctionInfo, n: int):
+        a = target.node.args
+        ps = [p.arg for p in a.posonlyargs + a.args]
+        if target.cls is not None and ps and "staticmethod" not in [norm.raw(d) for d in target.node.decorator_list]:
+            ps = ps[1:]
+        return ps[:n]
+
+    def _needs_absent_param(self, site, target: FunctionInfo, passed: set) -> bool:
+        a = target.node.args
+        names = [p.arg for p in a.posonlyargs + a.args]
+        defaults = dict(zip(names[len(names) - len(a.defaults):], a.defaults))
+        for p, d in zip(a.kwonlyargs, a.kw_defaults):
+            if d is not None:
+                defaults[p.arg] = d
+        none_defaults = {k for k, v in defaults.items() if isinstance(v, ast.Constant) and v.value is None}
+        for l in PC.units(PC.pc(site)):
+            b = M.match_text("$P is None", l.text)
+            if b is not None and not l.pos and isinstance(b["P"], ast.Name) and b["P"].id in none_defaults and b["P"].id not in passed:
+                return True
+        return False
 
     def _is_self_call(self, call, fn) -> bool:
         f = call.func
@@ -259,10 +287,22 @@ class Effects:
         if isinstance(f, ast.Attribute) and isinstance(f.value, ast.Call) and isinstance(f.value.func, ast.Name) and f.value.func.id == "super":
             return prog.resolve_call(self.repo, call)
         if self_cls is not None and self._is_self_call(call, fn):
-            return self.repo.method(self_cls, f.attr)
+            m = self.repo.method(self_cls, f.attr)
+            if m is not None:
+                return m
         if self_cls is not None and isinstance(f, ast.Attribute) and isinstance(f.value, ast.Attribute) and isinstance(f.value.value, ast.Name) \
                 and f.value.value.id == prog._self_name(fn):
             ac = prog.attr_class(self.repo, self_cls, f.value.attr)
+            hint = None
+            for c in self.repo.mro(self_cls):
+                hint = hint or self.receiver_hints.get((c.name, f.value.attr))
+            if hint is not None and isinstance(hint, ClassInfo):
+                ac = hint
             if ac is not None:
                 return self.repo.method(ac, f.attr)
+        if self_cls is not None and isinstance(f, ast.Attribute) and isinstance(f.value, ast.Name) and f.value.id == prog._self_name(fn):
+            for c in self.repo.mro(self_cls):
+                h = self.receiver_hints.get((c.name, f.attr))
+                if isinstance(h, FunctionInfo):
+                    return h
         return prog.resolve_call(self.repo, call)
